@@ -32,6 +32,41 @@ var allTargets = []string{
 
 var linkNames = []string{"l1", "l2", "l3"}
 
+// Spellings of a target. General lesson: the value of a symbolic link is a
+// STRING chosen by the caller, and the statement lets Readlink return it
+// lexically cleaned - so what is stored (and measured by Lstat) is the result
+// of a cleaning step, and code that cleans "only when needed" decides from
+// the look of the string. The target shapes above are all clean except one;
+// the unclean spellings that name the same thing are a dimension of their
+// own: a separator after the last name (after a file, a directory, a missing
+// name, a link name, "." and ".."), a doubled one, a trailing "/.", a leading
+// "./" (a doubled separator after the root for an absolute target) and a
+// doubled separator inside. Every one of them is rewritten by filepath.Clean;
+// Readlink must return Clean of what was given and Lstat the length of that.
+// (To the kernel a trailing separator also means "must be a directory": where
+// MemFS resolves the cleaned target differently the normalisation
+// "target-cleaned" of worker.go tells so, as for d/../l1.)
+func spellings(t string) []string {
+	root, rest := "", t
+	if r, ok := strings.CutPrefix(t, "R/"); ok {
+		root, rest = "R/", r
+	}
+
+	out := []string{t + "/", t + "//", t + "/."}
+
+	if root != "" {
+		out = append(out, "R//"+rest)
+	} else if t != "." { // "./." is there already
+		out = append(out, "./"+t)
+	}
+
+	if i := strings.Index(rest, "/"); i >= 0 {
+		out = append(out, root+rest[:i]+"/"+rest[i:])
+	}
+
+	return out
+}
+
 // Moves: what happens to the tree BETWEEN the creation of the links and the
 // questions. General lesson: the value of a relative symbolic link is
 // interpreted at the time of every walk, from the directory the link sits in
@@ -81,6 +116,7 @@ type space struct {
 	nLinks  int
 	targets []string
 	moves   []string // "" only for the static stages
+	spelled bool     // the targets are the unclean spellings of the target shapes
 	alpha   []string // query component alphabet (without the name a move introduces)
 }
 
@@ -88,12 +124,19 @@ type space struct {
 // target "l3" and the query component "l3" are the same class as "nope"
 // (a missing name) and are left out (likewise l2 with one link); with three
 // links everything is in. moved: the configurations are the graphs crossed
-// with every move of allMoves that applies to nLinks links.
-func newSpace(nLinks int, moved bool) *space {
-	s := &space{nLinks: nLinks, moves: []string{""}}
+// with every move of allMoves that applies to nLinks links. spelled: every
+// target shape is replaced by its unclean spellings (see spellings).
+func newSpace(nLinks int, moved, spelled bool) *space {
+	s := &space{nLinks: nLinks, moves: []string{""}, spelled: spelled}
 
 	for _, t := range allTargets {
 		if (nLinks < 3 && t == "l3") || (nLinks < 2 && t == "l2") {
+			continue
+		}
+
+		if spelled {
+			s.targets = append(s.targets, spellings(t)...)
+
 			continue
 		}
 
@@ -199,6 +242,32 @@ type callSpec struct {
 	Rel  bool // also run in the relative-path passes
 	Open bool // a member of the open-flag product (run in the flag stages only)
 	Flag int  // the flag argument of OpenFile
+	// Enter: the call makes what the query resolves to the working directory
+	// (1 = Chdir(q), 2 = Open(q) + File.Chdir) and questions it from inside
+	Enter int
+}
+
+// Entering what a path resolves to. General lesson: a path is not only
+// resolved to be looked at, it is also resolved to be ENTERED, and what is
+// entered must be the object the walk reached, not the name that was walked:
+// after chdir(2) or fchdir(2) through a symbolic link the working directory is
+// the directory the link leads to - getcwd gives its link-free path and ".."
+// is ITS parent, not the directory holding the link. An alphabet of calls that
+// only look at the object (Stat, ReadDir ...) cannot tell an implementation
+// that remembers the reached node from one that remembers the spelling. So on
+// every query path: Chdir(q), and Open(q) followed by File.Chdir on the handle
+// (the handle keeps what Open found), each followed by the questions of
+// enterProbes asked from inside - Getwd, the listing of "." and of "..", and
+// a file read through ".." - the results on both sides being compared as one
+// value; the working directory of the mode is restored afterwards on both
+// sides. The oracle is the kernel (os.Chdir, (*os.File).Chdir, os.Getwd and
+// relative names in the worker process, which owns its cwd).
+var enterProbes = []fsx.Call{
+	{Op: "Getwd"},
+	{Op: "ReadDir", A: "."},
+	{Op: "ReadDir", A: ".."},
+	{Op: "ReadFile", A: "../f"},
+	{Op: "ReadFile", A: "../d/f"},
 }
 
 var calls = []callSpec{
@@ -209,6 +278,8 @@ var calls = []callSpec{
 	{Name: "ReadDir", Mut: false, Rel: true},
 	{Name: "Readlink", Mut: false, Rel: true},
 	{Name: "EvalSymlinks", Mut: false, Rel: true},
+	{Name: "Chdir+probes", Mut: false, Rel: true, Enter: 1},
+	{Name: "Open+File.Chdir+probes", Mut: false, Rel: true, Enter: 2},
 	{Name: "Chmod", Mut: true, Rel: true},
 	{Name: "Chtimes", Mut: true, Rel: false},
 	{Name: "Truncate", Mut: true, Rel: false},
@@ -275,7 +346,10 @@ func init() {
 // allMoves); the questions are asked of the moved tree.
 //
 // Flags: the calls are Lstat (for the class of the query's final component)
-// and the open-flag product instead of the 19 calls of the other stages.
+// and the open-flag product instead of the 21 calls of the other stages.
+//
+// Spelled: the targets are the unclean spellings of the target shapes (see
+// spellings) instead of the shapes themselves.
 type stage struct {
 	Name    string
 	NLinks  int
@@ -283,6 +357,7 @@ type stage struct {
 	RelLens []int
 	Moved   bool
 	Flags   bool
+	Spelled bool
 }
 
 // runs tells whether call i of the alphabet belongs to the stage.
@@ -309,8 +384,13 @@ func (st stage) numCalls() int {
 func (st stage) bound() string {
 	graphs := fmt.Sprintf("all %d-link graphs (placement x target)", st.NLinks)
 
+	if st.Spelled {
+		sp := st.space()
+		graphs = fmt.Sprintf("all %d-link graphs (placement x unclean spelling of a target shape: %d spellings - every shape with a trailing /, a trailing //, a trailing /., a leading ./ (// after the root R for an absolute target) and, where it has one, its inner separator doubled)", st.NLinks, len(sp.targets))
+	}
+
 	if st.Moved {
-		sp := newSpace(st.NLinks, true)
+		sp := newSpace(st.NLinks, true, false)
 		graphs += fmt.Sprintf(" x every move applied after the links are made {%s} (query alphabet + e after dir and swap)", strings.Join(sp.moves, ","))
 	}
 
@@ -323,7 +403,7 @@ func (st stage) bound() string {
 		st.Name, graphs, lensString(st.AbsLens), what, lensString(st.RelLens))
 }
 
-func (st stage) space() *space { return newSpace(st.NLinks, st.Moved) }
+func (st stage) space() *space { return newSpace(st.NLinks, st.Moved, st.Spelled) }
 
 func lensString(l []int) string {
 	var s []string
@@ -338,11 +418,15 @@ func stagesFor(tier string) []stage {
 	// M: the moved graphs, one link at the query depth of A; thorough adds one
 	// link at the depth of B/E (M4) and two links of which one or none moves (N).
 	// F: the open-flag product on all 1-link graphs at the query depth of A;
-	// thorough adds one link at the depth of B/E (F4) and two links (F2)
+	// thorough adds one link at the depth of B/E (F4) and two links (F2).
+	// S: every unclean spelling of every target shape, one link; what the
+	// spelling changes is the value of the link, not the walk to it, so quick
+	// asks the short queries and thorough the queries of A
 	if tier != "thorough" {
 		return []stage{
 			{Name: "M", NLinks: 1, AbsLens: []int{1, 2, 3}, RelLens: []int{1, 2}, Moved: true},
 			{Name: "F", NLinks: 1, AbsLens: []int{1, 2, 3}, RelLens: []int{1, 2}, Flags: true},
+			{Name: "S", NLinks: 1, AbsLens: []int{1, 2}, RelLens: []int{1}, Spelled: true},
 			{Name: "A", NLinks: 2, AbsLens: []int{1, 2, 3}, RelLens: []int{1, 2}},
 		}
 	}
@@ -350,6 +434,7 @@ func stagesFor(tier string) []stage {
 	return []stage{
 		{Name: "M", NLinks: 1, AbsLens: []int{1, 2, 3}, RelLens: []int{1, 2}, Moved: true},
 		{Name: "F", NLinks: 1, AbsLens: []int{1, 2, 3}, RelLens: []int{1, 2}, Flags: true},
+		{Name: "S", NLinks: 1, AbsLens: []int{1, 2, 3}, RelLens: []int{1, 2}, Spelled: true},
 		{Name: "A", NLinks: 2, AbsLens: []int{1, 2, 3}, RelLens: []int{1, 2}},
 		{Name: "N", NLinks: 2, AbsLens: []int{1, 2}, RelLens: []int{1}, Moved: true},
 		{Name: "M4", NLinks: 1, AbsLens: []int{4}, RelLens: []int{3}, Moved: true},
@@ -362,8 +447,10 @@ func stagesFor(tier string) []stage {
 	}
 }
 
+// stageByName: the stage as the tier defines it (S is shallower in the quick
+// tier), any other stage as the thorough tier defines it.
 func stageByName(tier, name string) (stage, bool) {
-	for _, st := range stagesFor("thorough") {
+	for _, st := range append(stagesFor(tier), stagesFor("thorough")...) {
 		if st.Name == name {
 			return st, true
 		}
